@@ -17,7 +17,10 @@ RULE = ("exhaustive: every word of length L (quick 7, thorough 8; PulseSynchroni
         "toggle, toggle coincident with the edge} (PulseSynchronizer: {o edge, i edge, both edges, input toggle}) for "
         "stages=2 (thorough: also stages=3 with L-1), every init/i0/async_edge, outputs read after every step (so all "
         "prefixes, i.e. all words of length <= L, are covered); "
-        "seeded random walks of ~300 steps for stages 2..5, widths 0..4 signed/unsigned, random inits, async_edge pos/neg, "
+        "FFSynchronizer power-up family: synchroniser init (absent / 0 / every value) x input Signal init (every value) x "
+        "input = Signal or ~Signal for widths 1..3 signed/unsigned, stages 2,3, and widths 8,12 with 0xA5 / all-ones / random, "
+        "stages 2..5; seeded random walks of ~300 steps for stages 2..5, widths 0..4 signed/unsigned, synchroniser init "
+        "(absent 30% / 0 / random) drawn independently of the input init (all-ones 30% / random / 0), async_edge pos/neg, "
         "posedge and negedge output domains, four clock-ratio regimes (o fast, i fast, balanced with coincident edges, "
         "well-formed single-cycle pulses separated by an output edge) with inactive edges and out-of-range input values; "
         "constructor stage checks and RequirePosedge rejection compared on exception class. "
@@ -110,9 +113,9 @@ def gen_cases(tier, seed):
     # --- exhaustive small scope: stages = 2 with words of length L (thorough: also stages = 3, length L - 1)
     for st, n in (((2, L), (3, L - 1)) if thorough else ((2, L),)):
         for word in itertools.product(range(3), repeat=n):
-            for init in (0, 1):
-                cases.append({"k": "ff", "w": 1, "sg": False, "st": st, "init": init, "i0": 0, "neg": False,
-                              "ev": _toggle_word(word, 0, FF_LETTERS), "r": "exh"})
+            for init, i0 in ((0, 0), (1, 0), (None, 1), (None, 0) if word[0] else (0, 1)):
+                cases.append({"k": "ff", "w": 1, "sg": False, "st": st, "init": init, "i0": i0, "inv": False, "neg": False,
+                              "ev": _toggle_word(word, i0, FF_LETTERS), "r": "exh"})
             for pos in (True, False):
                 for i0 in (0, 1):
                     cases.append({"k": "af", "pos": pos, "st": st, "i0": i0,
@@ -137,8 +140,12 @@ def gen_cases(tier, seed):
                         if rng.random() < 0.1:
                             return rng.randrange(-40, 41)      # out of range: truncated by the simulator
                         return rng.randrange(lo, hi)
-                    cases.append({"k": "ff", "w": w, "sg": sg, "st": st,
-                                  "init": vals() if rng.random() < 0.8 else 0, "i0": vals(), "neg": rng.random() < 0.25,
+                    r = rng.random()     # the synchroniser's init and the input's init are drawn independently
+                    init = None if r < 0.3 else 0 if r < 0.4 else vals()
+                    r = rng.random()
+                    i0 = (-1 if sg else (1 << w) - 1) if r < 0.3 else vals() if r < 0.9 else 0
+                    cases.append({"k": "ff", "w": w, "sg": sg, "st": st, "init": init, "i0": i0,
+                                  "inv": w > 0 and rng.random() < 0.25, "neg": rng.random() < 0.25,
                                   "ev": _walk(rng, N, regime, vals, False), "r": regime})
                 bit = lambda: rng.randrange(0, 2)
                 for pos in (True, False):
@@ -147,9 +154,33 @@ def gen_cases(tier, seed):
                 cases.append({"k": "rs", "st": st, "i0": bit(), "ev": _walk(rng, N, regime, bit, False), "r": regime})
                 for _ in range(3):
                     ev = _walk(rng, N, regime, bit, True)
-                    i0 = 0 if regime == "pulses" else bit()
+                    i0 = bit() if regime != "pulses" or rng.random() < 0.3 else 0
                     cases.append({"k": "ps", "st": st, "i0": i0, "neg": rng.random() < 0.25, "ev": ev, "r": regime})
                     cases.append({"k": "sep", "i0": i0, "ev": ev, "r": regime})
+    # --- power-up: synchroniser init (None / 0 / k) x input init (0 / non-zero / all-ones), Signal and ~Signal inputs;
+    #     st + 1 output edges, one input change, st + 1 output edges
+    def power_up(w, sg, st, init, i0, inv, v2, neg=False, pre=()):
+        ev = list(pre) + [[1, None]] * (st + 1) + [[0, v2]] + [[1, None]] * (st + 1)
+        cases.append({"k": "ff", "w": w, "sg": sg, "st": st, "init": init, "i0": i0, "inv": inv, "neg": neg,
+                      "ev": [list(e) for e in ev], "r": "init"})
+    for w in (1, 2, 3):
+        for sg in (False, True):
+            lo, hi = (-(1 << (w - 1)), (1 << (w - 1))) if sg else (0, 1 << w)
+            for st in (2, 3):
+                for init in [None] + list(range(lo, hi)):
+                    for i0 in range(lo, hi):
+                        for inv in (False, True):
+                            power_up(w, sg, st, init, i0, inv, rng.randrange(lo, hi))
+    for w in (8, 12):
+        full = (1 << w) - 1
+        for sg in (False, True):
+            lo, hi = (-(1 << (w - 1)), (1 << (w - 1))) if sg else (0, 1 << w)
+            for st in (2, 3, 4, 5):
+                for init in (None, 0, 0xA5, full, rng.randrange(lo, hi), rng.randrange(lo, hi)):
+                    for i0 in (0xA5, full, -1, 1, 0, rng.randrange(lo, hi), rng.randrange(lo, hi)):
+                        for inv in (False, True):
+                            pre = [[rng.choice((0, 4)), None]] * rng.randrange(0, 2)
+                            power_up(w, sg, st, init, i0, inv, rng.randrange(lo, hi), rng.random() < 0.2, pre)
     # --- constructor checks and RequirePosedge
     for comp in ("ff", "af", "rs", "ps"):
         for st in (-3, -1, 0, 1, 2, 3, 7):
@@ -345,10 +376,12 @@ def run_impl(c):
     st = c["st"]
     if k == "ff":
         sh = Shape(c["w"], c["sg"])
-        i, o = Signal(sh, init=c["i0"]), Signal(sh)
-        m.submodules.dut = FFSynchronizer(i, o, o_domain="o", init=c["init"], stages=st)
-        mon = _FFMon(i, st, Const(c["init"], sh).value)
-        out = _drive(m, i, o, cd_o, None, neg, c["ev"], mon)
+        a, o = Signal(sh, init=c["i0"]), Signal(sh)
+        i = ~a if c.get("inv") else a              # the input may be any value expression
+        kw = {} if c["init"] is None else {"init": c["init"]}       # None: constructed without init=
+        m.submodules.dut = FFSynchronizer(i, o, o_domain="o", stages=st, **kw)
+        mon = _FFMon(i, st, Const(c["init"] or 0, sh).value)
+        out = _drive(m, a, o, cd_o, None, neg, c["ev"], mon)
         return [int(mon.ok)] + _pack_out(c, out)
     if k == "af":
         i, o = Signal(init=c["i0"]), Signal()
@@ -381,7 +414,8 @@ def _fmt(c):
     """(fb, off) of the step codes and (ob, ooff) of the output codes of a case"""
     if c["k"] == "ff":
         w = c["w"]
-        return ((2, 1) if c["r"] == "exh" else (7, 64)), (w + 1, 1 << w)
+        fb = max(7, w + 2)
+        return ((2, 1) if c["r"] == "exh" else (fb, 1 << (fb - 1))), (w + 1, 1 << w)
     return (2, 1), (1, 0)
 
 
@@ -426,7 +460,9 @@ def _unpack_out(c, chunks, n):
 def coq_term(c):
     k = c["k"]
     if k == "ff":
-        return f"k_ff {z(c['w'])} {blit(c['sg'])} {c['st']}%nat {z(c['init'])} {z(c['i0'])} {_pack_steps(c)}"
+        init = "None" if c["init"] is None else f"(Some {z(c['init'])})"
+        return (f"k_ff {z(c['w'])} {blit(c['sg'])} {c['st']}%nat {init} {blit(c.get('inv', False))} {z(c['i0'])} "
+                f"{_pack_steps(c)}")
     if k == "af":
         return f"k_af {blit(c['pos'])} {c['st']}%nat {z(c['i0'])} {_pack_steps(c)}"
     if k == "rs":
@@ -448,7 +484,11 @@ def classify(c):
         return k
     if k == "sep":
         return f"sep/{c['r']}"
-    return f"{k}/st{c['st']}/{c['r']}" + ("/negedge" if c.get("neg") else "")
+    tag = ""
+    if k == "ff":
+        tag = ("/init=None" if c["init"] is None else "/init=0" if c["init"] == 0 else "/init=k") + \
+              ("/i0=0" if c["i0"] == 0 else "/i0!=0") + ("/~sig" if c.get("inv") else "")
+    return f"{k}/st{c['st']}/{c['r']}" + tag + ("/negedge" if c.get("neg") else "")
 
 
 def nontrivial(c, obs):
